@@ -144,15 +144,16 @@ def po_deribit_trade(S):
     m = w.market
     a = S.dec("amount", None, None)
     limit = S.dec("price_in_token", 0, 10, lo_strict=True) if S.bool("with_limit_price") else None
+    cap = S.dec("max_mark_price_multiple", 1, 100) if S.bool("with_price_cap") else None      # "all argument values": the rarely used cap too
     held0 = m.positions["I0"].amount if "I0" in m.positions else 0
     v0 = deribit_value(w)
     is_buy = S.bool("is_buy")
     ok = True
     try:
         if is_buy:
-            orders, fee = m.buy("I0", a, limit)
+            orders, fee = m.buy("I0", a, limit, None, cap)
         else:
-            orders, fee = m.sell("I0", a, limit)
+            orders, fee = m.sell("I0", a, limit, None, cap)
     except REJECT:
         ok = False
     S.check("NONNEG:wallet,cash,option-amounts,visible-book-sizes", all_nonneg(deribit_amounts(w)))
